@@ -428,34 +428,37 @@ def diff_cmds(ids: Ids, a0, a1):
             oom.append('pointer changed source/kind')
         if o['name'] != n['name']:
             cmds.append(f"rp {i} {ids.pname(n['name'])}")
-        # computed / cardinality of the pointer
-        pre, post = [], []
-        if not o['computed'] and n['computed']:
-            pre.append(f"se {i} {b01(n['single'])}")
-        elif o['computed'] and not n['computed']:
-            if o['single'] != n['single']:
-                post.append(f"sg {i} {b01(n['single'])}")       # while still computed: schema only
-                post.append(f're {i}')
-                oom.append('computed -> stored with a cardinality change')
-            else:
-                post.append(f're {i}')
-        elif o['single'] != n['single']:
-            pre.append(f"sg {i} {b01(n['single'])}")
-        if o['required'] != n['required']:
-            pre.append(f"rq {i} {b01(n['required'])}")
-        cmds += pre
+        # The order mirrors what the real handlers see inside ONE statement: the expression field is
+        # set in `_alter_begin`, so link-property subcommands run against an already computed /
+        # already stored link; on computed -> stored `_create_link` runs before the subcommands
+        # (drops of link properties were no-ops on the computed link, additions add their column
+        # afterwards).  For guarded steps the order is immaterial (C05_tracks: any order ends in
+        # layout(final schema)).
+        lp_down, lp_up = [], []
         for lp in sorted(set(o['lprops']) - set(n['lprops']), key=by_id):
-            cmds.append(f'dl {i} {ids.id(lp)}')
-        for lp in sorted(set(n['lprops']) - set(o['lprops']), key=by_id):
-            l = n['lprops'][lp]
-            cmds.append(f"al {i} {ids.id(lp)} {ids.lname(l['name'])} {b01(l['computed'])}")
+            lp_down.append(f'dl {i} {ids.id(lp)}')
         for lp in sorted(set(n['lprops']) & set(o['lprops']), key=by_id):
             lo, ln = o['lprops'][lp], n['lprops'][lp]
             if lo['name'] != ln['name']:
-                cmds.append(f"rl {i} {ids.id(lp)} {ids.lname(ln['name'])}")
+                lp_up.append(f"rl {i} {ids.id(lp)} {ids.lname(ln['name'])}")
             if lo['computed'] != ln['computed']:
-                cmds.append(f"cl {i} {ids.id(lp)} {b01(ln['computed'])}")
-        cmds += post
+                (lp_down if ln['computed'] else lp_up).append(f"cl {i} {ids.id(lp)} {b01(ln['computed'])}")
+        for lp in sorted(set(n['lprops']) - set(o['lprops']), key=by_id):
+            l = n['lprops'][lp]
+            lp_up.append(f"al {i} {ids.id(lp)} {ids.lname(l['name'])} {b01(l['computed'])}")
+        rq = [f"rq {i} {b01(n['required'])}"] if o['required'] != n['required'] else []
+        if not o['computed'] and n['computed']:
+            cmds += [f"se {i} {b01(n['single'])}"] + rq + lp_down + lp_up
+        elif o['computed'] and not n['computed']:
+            cmds += lp_down
+            if o['single'] != n['single']:
+                cmds.append(f"sg {i} {b01(n['single'])}")       # while still computed: schema only
+                oom.append('computed -> stored with a cardinality change')
+            cmds += [f're {i}'] + rq + lp_up
+        else:
+            if o['single'] != n['single']:
+                cmds.append(f"sg {i} {b01(n['single'])}")
+            cmds += rq + lp_down + lp_up
     return cmds, oom
 
 
@@ -641,6 +644,8 @@ class Gen:
         ('rename_lprop', 2), ('lprop_set_expr', 3), ('lprop_reset_expr', 3), ('add_base', 5),
         ('drop_base', 4), ('set_abstract', 2), ('drop_abstract', 2), ('create_abslink', 3),
         ('abslink_add_prop', 3), ('abslink_drop_prop', 3), ('drop_abslink', 2),
+        # compound statements: several subcommands on one pointer / several pointers and bases at once
+        ('compound_link', 12), ('compound_prop', 6), ('compound_type', 10),
     ]
 
     def __init__(self, rng, risky=0.0, special=0.2):
@@ -648,6 +653,7 @@ class Gen:
         self.n = 0
         self.risky = risky       # probability of the variants that hit the known findings
         self.special = special   # probability that a new pointer gets a special-cased name
+        self.tags = set()
         exact, pre, suf, _ = special_names()
         self.pool = [('=', x) for x in exact if x not in ('id',) and not (x.startswith('__') and x.endswith('__'))] \
             + [('^', x) for x in pre] + [('$', x) for x in suf]
@@ -660,6 +666,8 @@ class Gen:
             return f'{pfx}{self.n}'
         if pfx != '__d' and self.pool and self.rng.random() < self.special:
             k, x = self.rng.choice(self.pool)
+            if pfx in ('r', 'rq') and (k, x) == ('^', '__'):
+                return bq(f'{pfx}{self.n}')      # renames to `__…` only in the `risky` variants
             return bq(x if k == '=' else (f'{x}s{self.n}' if k == '^' else f's{self.n}{x}'))
         return bq(f'{pfx}{self.n}')
 
@@ -704,15 +712,151 @@ class Gen:
             body = ' { create property %s -> str; create property %s := 1; }' % (self.fresh('q'), self.fresh('q'))
         return f'create {req}{mul}link {l}{ext} -> {tgt}{body}'
 
+    # ------------------------------------------------------------------ compound statements
+    def ptr_subs(self, a, d, n):
+        """`n` subcommands for one `ALTER LINK/PROPERTY { … }` block, in random order; the pointer's
+        state inside the statement is tracked so that each subcommand is applicable after the
+        previous ones (USING where the engine requires it)"""
+        r = self.rng
+        is_link = d['kind'] == 'L'
+        tids = sorted(a['types'], key=lambda t: a['types'][t]['name'])
+        tgt = self.tname(a, r.choice(tids))
+        st = dict(single=d['single'], required=d['required'], computed=d['computed'],
+                  lprops=[l['name'] for l in d['lprops'].values() if l.get('owned', True)], excl=None)
+        me = '.' + bq(d['name'])
+        subs = []
+        done = set()
+        for _ in range(n):
+            opts = []
+            if is_link:
+                opts += ['create_lprop', 'create_lprop']
+                if st['lprops']:
+                    opts += ['drop_lprop', 'drop_lprop']
+            if st['computed']:
+                opts.append('reset')
+            else:
+                opts += ['set_multi' if st['single'] else 'set_single'] * 2
+                opts.append('set_optional' if st['required'] else 'set_required')
+                opts.append('using')
+                opts.append('set_type')
+                if st['excl'] is not False:
+                    opts.append('create_excl' if st['excl'] is None else 'drop_excl')
+            k = r.choice(opts)
+            # the same attribute changed twice in one statement (set single + set multi, using + reset):
+            # kept rare; such statements are tagged (the handlers read the pre-statement schema)
+            fam = {'set_multi': 'card', 'set_single': 'card', 'using': 'expr', 'reset': 'expr'}.get(k)
+            if fam and fam in done:
+                if r.random() > 0.2:
+                    continue
+                self.tags.add('twice')
+            if fam:
+                done.add(fam)
+            if k == 'create_lprop':
+                q = self.fresh('q')
+                st['lprops'].append(q.strip('`'))
+                subs.append(f'create property {q} -> str' if r.random() < 0.85 else f'create property {q} := 1')
+            elif k == 'drop_lprop':
+                q = r.choice(st['lprops'])
+                st['lprops'].remove(q)
+                subs.append(f'drop property {bq(q)}')
+            elif k == 'set_multi':
+                st['single'] = False
+                subs.append('set multi')
+            elif k == 'set_single':
+                st['single'] = True
+                subs.append(f'set single using (select {me} limit 1)')
+            elif k == 'set_required':
+                st['required'] = True
+                subs.append(f'set required using (select {tgt} limit 1)' if is_link else "set required using ('x')")
+            elif k == 'set_optional':
+                st['required'] = False
+                subs.append('set optional')
+            elif k == 'using':
+                single = st['single'] if r.random() >= self.risky else not st['single']
+                st['computed'] = True
+                if is_link:
+                    subs.append(f'using (select {tgt} limit 1)' if single else f'using (select {tgt})')
+                else:
+                    subs.append("using ('x')" if single else "using ({'x', 'y'})")
+            elif k == 'reset':
+                if not (r.random() < self.risky or not any(not l['computed'] for l in d['lprops'].values())):
+                    continue
+                st['computed'] = False
+                subs.append('reset expression')
+            elif k == 'set_type':
+                subs.append(f'set type {tgt} using (select {tgt} limit 1)' if is_link else "set type str using ('y')")
+            elif k == 'create_excl':
+                st['excl'] = True
+                subs.append('create constraint exclusive')
+            elif k == 'drop_excl':
+                st['excl'] = False
+                subs.append('drop constraint exclusive')
+        if subs and r.random() < 0.15:
+            subs.append('rename to ' + self.fresh('r'))
+        return subs
+
+    def compound(self, k, a, owned, tids):
+        r = self.rng
+        self.tags = set()
+        types = a['types']
+        if not owned:
+            return None
+        if k in ('compound_link', 'compound_prop'):
+            c = [(p, d) for p, d in owned if d['kind'] == ('L' if k == 'compound_link' else 'P')]
+            if not c:
+                return None
+            pid, d = r.choice(c)
+            subs = self.ptr_subs(a, d, r.choice([2, 2, 3]))
+            if len(subs) < 2:
+                return None
+            kw = 'link' if d['kind'] == 'L' else 'property'
+            return (f"alter type {self.tname(a, d['src'])} {{ alter {kw} {bq(d['name'])} {{ "
+                    + '; '.join(subs) + '; }; }')
+        # compound_type: several pointers and bases of one type at once
+        by_type = {}
+        for pid, d in owned:
+            by_type.setdefault(d['src'], []).append((pid, d))
+        t = r.choice(sorted(by_type, key=lambda t: types[t]['name']))
+        mine = list(by_type[t])
+        r.shuffle(mine)
+        abslinks = [d['name'] for d in a['ptrs'].values() if d['src'] is None and d['kind'] == 'L']
+        subs = []
+        for _ in range(r.choice([2, 3, 3, 4])):
+            kk = r.random()
+            if kk < 0.2:
+                subs.append(self.propdecl())
+            elif kk < 0.4:
+                ld = self.linkdecl(a, abslinks)
+                if ld:
+                    subs.append(ld)
+            elif kk < 0.55 and mine:
+                pid, d = mine.pop()
+                subs.append(('drop link ' if d['kind'] == 'L' else 'drop property ') + bq(d['name']))
+            elif kk < 0.85 and mine:
+                pid, d = mine.pop()
+                ps = self.ptr_subs(a, d, r.choice([1, 2, 2]))
+                if ps:
+                    subs.append(f"alter {'link' if d['kind'] == 'L' else 'property'} {bq(d['name'])} {{ "
+                                + '; '.join(ps) + '; }')
+            elif kk < 0.93 and len(tids) >= 2:
+                b = r.choice([x for x in tids if x != t])
+                subs.append('extending ' + self.tname(a, b))
+            elif types[t]['bases']:
+                subs.append('drop extending ' + self.tname(a, r.choice(types[t]['bases'])))
+        if len(subs) < 2:
+            return None
+        return f"alter type {self.tname(a, t)} {{ " + '; '.join(subs) + '; }'
+
     def next(self, a):
         r = self.rng
         names = [c for c, _ in self.WEIGHTS]
         weights = [w for _, w in self.WEIGHTS]
         for _ in range(40):
             k = r.choices(names, weights)[0]
+            self.tags = set()
             t = self.template(k, a)
             if t:
-                return k, t
+                return k + ''.join('+' + x for x in sorted(self.tags)), t
         return None
 
     def template(self, k, a):
@@ -729,6 +873,8 @@ class Gen:
             kw = 'link' if d['kind'] == 'L' else 'property'
             return f"alter type {self.tname(a, d['src'])} alter {kw} {bq(d['name'])}"
 
+        if k.startswith('compound'):
+            return self.compound(k, a, owned, tids)
         if k == 'create_type':
             t = self.fresh('T')
             ext = ''
@@ -858,6 +1004,38 @@ class Gen:
         return None
 
 
+def migration_histories(R, rng, n, log):
+    """migration-shaped statements: SDL pairs (A, B) of the C02 generator; the DDL the real diff engine
+    emits for `start migration to {A}; populate migration; commit migration` and then for B is
+    taken through the pgsql delta as ONE `CREATE MIGRATION { … }` each (as the server does on
+    COMMIT MIGRATION), so the compound shapes real migrations produce are covered"""
+    try:
+        from props import schema_common as sc
+    except Exception as e:          # the C02 package is not installed in this tree
+        log(f'migration stream skipped: cannot import props.schema_common ({type(e).__name__}: {e})')
+        return
+    sc.setup()
+    made = tries = 0
+    while made < n and tries < 3 * n:
+        tries += 1
+        try:
+            a = sc.gen_spec(rng, rng.choice([2, 3, 4]))
+            b, tags = sc.mutate(rng, a, rng.choice([1, 2, 2, 3]))
+            s1 = sc.migrate(R.base_schema(), sc.render(a))
+            script_a = sc.migration_script(s1)
+            s2 = sc.migrate(s1, sc.render(b))
+            script_b = sc.migration_script(s2)
+        except Exception:
+            continue
+        if not script_a.strip():
+            continue
+        stmts = [('migration', 'create migration { ' + script_a + ' }')]
+        if script_b.strip():
+            stmts.append(('migration', 'create migration { ' + script_b + ' }'))
+        made += 1
+        yield 'migration:' + '+'.join(map(str, tags))[:80], stmts
+
+
 def teardown_stmts(a):
     """DDL that tries to drop every user object (several rounds are needed)"""
     out = []
@@ -913,6 +1091,17 @@ FIXED = [
         'alter type B alter link b alter property v rename to __v', 'alter type A drop property __foo']),
     ('explicit-multi-made-computed', BASE_AB + ["alter type A alter property tags using ('x')",
                                                 'alter type A alter property tags reset expression']),
+    ('compound-lprops-and-cardinality', BASE_AB + [
+        'alter type B { alter link as_ { drop property w; set single using (select .as_ limit 1); }; }',
+        'alter type B { alter link as_ { create property note -> str; set multi; }; }',
+        'alter type B { alter link as_ { set single using (select .as_ limit 1); drop property note; }; }',
+        'alter type B { alter link a { set multi; create property n2 -> str; }; }',
+        'alter type B { alter link a { create property n3 -> str; set single using (select .a limit 1); }; }',
+        'alter type B { alter link a { drop property n2; drop property n3; set required using (select A limit 1); }; }',
+        "alter type A { alter property name { set multi; set required using ('x'); create constraint exclusive; }; "
+        "alter property tags { set single using (select .tags limit 1); rename to tag; }; create property extra -> str; }",
+        "alter type B { alter link b { set multi; alter property v { rename to vv; }; }; drop link a; "
+        "create multi link c -> A { create property cw -> str; }; extending A; }"]),
     # --- the known violations -------------------------------------------------
     ('FINDING-rename-to-dunder', BASE_AB + ['alter type A alter property name rename to __bar']),
     ('FINDING-rename-from-dunder', BASE_AB + ['alter type A create property __foo -> str',
@@ -923,6 +1112,8 @@ FIXED = [
                                                    'alter type A alter property __foo rename to __bar']),
     ('FINDING-link-with-lprops-stored-again', BASE_AB + [
         'alter type B alter link as_ using (select A)', 'alter type B alter link as_ reset expression']),
+    ('FINDING-cardinality-changed-twice-in-one-statement', BASE_AB + [
+        ('compound_link+twice', 'alter type B { alter link as_ { set single using (select .as_ limit 1); set multi; }; }')]),
     ('FINDING-abstract-link-property-named-source', [
         'create abstract link fal { create property `source` -> str }',
         'alter abstract link fal drop property `source`']),
@@ -1119,7 +1310,11 @@ def run_history(R: Real, hid, name, stmts_or_gen, ncmds, lines, recs, stats, tea
                 if not queue:
                     phase = 'teardown-init'
                     continue
-                template, text = ('special-name' if name.startswith('special-name') else 'fixed'), queue.pop(0)
+                item = queue.pop(0)
+                if isinstance(item, (tuple, list)):
+                    template, text = item
+                else:
+                    template, text = ('special-name' if name.startswith('special-name') else 'fixed'), item
             else:
                 if nmain >= ncmds:
                     phase = 'teardown-init'
@@ -1250,9 +1445,18 @@ def run(ctx: core.Ctx):
             run_history(R, hid, f'random{k}' + ('r' if risky else ''), g, ncmds, lines, recs, stats,
                         teardown=(k % 2 == 0))
             hid += 1
-            if ctx.quick() and time.time() - ctx.t0 > 140 and k + 1 >= 10:
+            if ctx.quick() and time.time() - ctx.t0 > 120 and k + 1 >= 10:
                 ctx.log(f'time budget: stopping after {k + 1} random histories')
                 break
+        nm = 0
+        for name, stmts in migration_histories(R, ctx.rng, ctx.budget(10, 300), ctx.log):
+            run_history(R, hid, name, stmts, 0, lines, recs, stats, teardown=False)
+            hid += 1
+            nm += 1
+            if ctx.quick() and time.time() - ctx.t0 > 150 and nm >= 3:
+                ctx.log(f'time budget: stopping after {nm} migration pairs')
+                break
+        stats['migration_pairs'] = nm
     nsteps = sum(1 for r in recs if r['kind'] == 'step')
     ctx.log(f'{hid} histories, {nsteps} accepted statements through the real pgsql delta '
             f'({stats["t_real"]:.1f}s in the real code); rejected {sum(stats["rejected"].values())}, '
@@ -1322,7 +1526,9 @@ def run(ctx: core.Ctx):
             n_oracle_fail += 1
             what = '+'.join(problems)
             mismatch_kinds[what] = mismatch_kinds.get(what, 0) + 1
-            if unsafe:
+            if '+twice' in r['template']:
+                key = 'oracle:attribute-changed-twice-in-one-statement'
+            elif unsafe:
                 key = 'oracle:' + '+'.join(sorted({UNSAFE_KEYS.get(u, u) for u in unsafe}))
             else:
                 key = f'oracle:{r["template"]}:{what}'
@@ -1332,7 +1538,9 @@ def run(ctx: core.Ctx):
                       'storage_ops': r['log'], 'model_commands': r['cmds'], 'model_results': res,
                       'unsafe_steps_by_model': unsafe})
         # ---- (i) the model
-        if r['oom']:
+        if r['oom'] or '+twice' in r['template']:
+            # outside the model's alphabet (the model sees the NET change of a statement; a statement that
+            # changes the same attribute twice exercises handlers that read the pre-statement schema)
             n_oom += 1
             continue
         if r['hid'] in hist_corr_reported:
@@ -1394,6 +1602,8 @@ def run(ctx: core.Ctx):
         'oracle_failure_kinds': mismatch_kinds,
         'disagreements_model_vs_impl': n_corr_fail,
         'steps_outside_model_alphabet': n_oom,
+        'migration_pairs': stats.get('migration_pairs', 0),
+        'compound_statements': sum(v for k, v in stats['templates'].items() if k.startswith('compound')),
         'tree_walk_vs_sql_text_mismatches': n_walker,
         'level1_pointer_cases': len(l1_reals), 'level1_distinct_attribute_vectors': l1_distinct,
         'level1_disagreements': l1_bad,
